@@ -47,6 +47,19 @@ pub enum BOp {
     FromLeBytes(usize),
     /// (x + y) * z: an addition result feeding a multiplication
     AddMul(u32, u32, u32),
+    /// binary operation between an assigned x (width) and a constant assigned with
+    /// `assign_fixed_biguint` (whose limb-size bookkeeping is separate from `assign_biguint`'s);
+    /// the flag puts the constant on the left
+    WithFixed(FK, u32, BigUint, bool),
+}
+
+#[derive(Clone, Copy, Debug, PartialEq, Eq)]
+pub enum FK {
+    Add,
+    Sub,
+    Mul,
+    DivRem,
+    LowerThan,
 }
 
 /// input descriptor: big integer of a declared width, bit, bit vector, byte vector
@@ -66,6 +79,7 @@ impl BOp {
     pub fn in_types(&self) -> Vec<BTy> {
         use BOp::*;
         match self {
+            WithFixed(_, w, _, _) => vec![BTy::U(*w)],
             Assign(w) | IsEqualToFixed(w, _) | IsNotEqualToFixed(w, _) | AssertEqualToFixed(w, _) | AssertNotEqualToFixed(w, _) | ToLeBits(w) | ToLeBytes(w) => vec![BTy::U(*w)],
             AssignFixed(_) => vec![],
             Add(a, b) | Sub(a, b) | Mul(a, b) | DivRem(a, b) | LowerThan(a, b) | IsEqual(a, b) | IsNotEqual(a, b) | AssertEqual(a, b) | AssertNotEqual(a, b) => vec![BTy::U(*a), BTy::U(*b)],
@@ -168,6 +182,27 @@ pub fn reference(op: &BOp, ins: &[V]) -> Option<Vec<V>> {
             vec![V::U(BigUint::from_bytes_le(b))]
         }
         AddMul(..) => vec![V::U((u(0) + u(1)) * u(2))],
+        WithFixed(k, _, c, lhs) => {
+            let (a, b) = if *lhs { (c.clone(), u(0)) } else { (u(0), c.clone()) };
+            match k {
+                FK::Add => vec![V::U(a + b)],
+                FK::Sub => {
+                    if a < b {
+                        return None;
+                    }
+                    vec![V::U(a - b)]
+                }
+                FK::Mul => vec![V::U(a * b)],
+                FK::DivRem => {
+                    if b.is_zero() {
+                        return None;
+                    }
+                    let (q, r) = a.div_rem(&b);
+                    vec![V::U(q), V::U(r)]
+                }
+                FK::LowerThan => vec![V::B(a < b)],
+            }
+        }
     })
 }
 
@@ -316,6 +351,21 @@ pub fn synth_big<L: Layouter<F>>(std: &ZkStdLib, l: &mut L, ex: &Exposer, op: &B
         AddMul(..) => {
             let s = g.add(l, &u(0), &u(1))?;
             outs.push(A::U(g.mul(l, &s, &u(2))?))
+        }
+        WithFixed(k, _, c, lhs) => {
+            let cf = g.assign_fixed_biguint(l, c.clone())?;
+            let (x, y) = if *lhs { (cf, u(0)) } else { (u(0), cf) };
+            match k {
+                FK::Add => outs.push(A::U(g.add(l, &x, &y)?)),
+                FK::Sub => outs.push(A::U(g.sub(l, &x, &y)?)),
+                FK::Mul => outs.push(A::U(g.mul(l, &x, &y)?)),
+                FK::DivRem => {
+                    let (q, r) = g.div_rem(l, &x, &y)?;
+                    outs.push(A::U(q));
+                    outs.push(A::U(r));
+                }
+                FK::LowerThan => outs.push(A::B(g.lower_than(l, &x, &y)?)),
+            }
         }
     }
     mark_end();
